@@ -407,6 +407,111 @@ async def run_one(ctx, schedule: str, api: str, key) -> None:
             raise
 
 
+# ---------------------------------------------------------------------------------------------
+# immediate retries, on the plain connection too (pair-setup and every reconnect's pair-verify phase run on it)
+# ---------------------------------------------------------------------------------------------
+
+
+async def retry_case(ctx, secure: bool, end: str, answer_retry: bool, idx: int) -> None:
+    """A request ends by its caller's timeout / cancellation / the 30 s timer, or is cut off by the peer; its caller retries AT
+    ONCE (same task, no await in between: before the loop has delivered connection_lost). The retry either fails with the
+    library's disconnection error or completes with ITS OWN response - nothing else, and never with the first one's."""
+    from aiohomekit.controller.ip.connection import HomeKitConnection
+    from aiohomekit.exceptions import AccessoryDisconnectedError
+
+    from vf import simnet, vloop
+
+    replay = {"part": "retry", "secure": secure, "end": end, "answer_retry": answer_retry, "idx": idx}
+    ctx.case("retry", secure, end, answer_retry, sample={"part": "immediate retry", "session": "secure" if secure else "plain", "first_request_ends_by": end, "retry_answered": answer_retry}, kind="retry")
+    rng = ctx.grng("C08.retry", secure, end, answer_retry, idx)
+    w = simnet.World(rng)
+    got = []
+
+    def responder(c, req):
+        t = req["target"]
+        if not t.startswith("/x/"):
+            return False
+        uid = int(t[3:])
+        got.append((uid, c))
+        body = json.dumps({"id": uid, "conn": c.index, "kind": "response"}, separators=(",", ":")).encode()
+        if uid == 1:
+            if end == "peer-close":
+                c.close()
+            elif end == "late-answer":
+                # the answer to the first request arrives when its caller has already given up
+                asyncio.get_running_loop().call_later(1.5, lambda: c.is_open and c.send(c.http(200, body, "application/hap+json")))
+            return True
+        if answer_retry:
+            c.send(c.http(200, body, "application/hap+json"))
+        return True
+
+    w.accessory.script_for = lambda host, attempt: simnet.ConnScript(verify="ok", responder=responder)
+    conn = w.connection if secure else HomeKitConnection(None, ["10.0.0.5"], 51826)
+    out = {"first": None, "retry": None}
+    try:
+        await conn.ensure_connection()
+        await vloop.settle()
+
+        async def caller():
+            try:
+                if end in ("own-timeout", "late-answer"):
+                    out["first"] = await asyncio.wait_for(conn.get("/x/1"), 1.0)
+                else:
+                    out["first"] = await conn.get("/x/1")
+            except BaseException as ex:  # noqa: BLE001
+                out["first"] = ex
+                if isinstance(ex, asyncio.CancelledError):
+                    asyncio.current_task().uncancel()
+            try:
+                out["retry"] = await conn.get("/x/2")
+            except BaseException as ex:  # noqa: BLE001
+                out["retry"] = ex
+
+        task = asyncio.ensure_future(caller())
+        if end == "cancel":
+            await asyncio.sleep(0.5)
+            task.cancel()
+        await asyncio.sleep(75)
+        await vloop.settle()
+        if not task.done():
+            ctx.violation("request-hangs", f"immediate retry after {end} on a {'secure' if secure else 'plain'} connection: the caller is still pending after 75 virtual seconds", replay)
+            task.cancel()
+            return
+        r = out["retry"]
+        label = f"{'secure' if secure else 'plain'} connection, first request ended by {end} ({type(out['first']).__name__}), retried at once"
+        if isinstance(r, BaseException):
+            if isinstance(r, AccessoryDisconnectedError):
+                ctx.count("immediate_retries_refused_with_disconnection_error")
+            else:
+                ctx.violation(f"request-fails-with-{type(r).__name__}", f"{label}: the retry raised {r!r}", replay)
+            return
+        try:
+            doc = json.loads(bytes(r.body).decode())
+        except Exception:  # noqa: BLE001
+            doc = None
+        if not doc or doc.get("id") != 2:
+            ctx.violation("response-misattributed", f"{label}: the retry completed with {bytes(r.body)[:80]!r}", replay)
+            return
+        ctx.count("immediate_retries_completed_with_own_response")
+    finally:
+        if not secure:
+            try:
+                await conn.close()
+            except Exception:  # noqa: BLE001
+                pass
+        await w.close()
+
+
+async def retry_part(ctx) -> None:
+    idx = 0
+    for secure in (False, True):
+        for end in ("own-timeout", "cancel", "timer", "peer-close", "late-answer"):
+            for answer_retry in (True, False):
+                idx += 1
+                if ctx.mine(idx):
+                    await retry_case(ctx, secure, end, answer_retry, idx)
+
+
 def run(ctx) -> None:
     from vf import vloop
 
@@ -421,6 +526,7 @@ def run(ctx) -> None:
             schedule = "R" + "".join(tail)
             await run_one(ctx, schedule, ("pairing", "connection", "pipelined", "connection", "pipelined")[idx % 5], idx)
         ctx.exhaustive_parts[f"all schedules of depth {depth} starting with R"] = True
+        await retry_part(ctx)
         rng = ctx.rng("C08.random")
         for k in range(ctx.pick(4000, 300000) // ctx.nshards):
             n = rng.randint(6, 30)
@@ -433,4 +539,7 @@ def run(ctx) -> None:
 def replay(ctx, d) -> None:
     from vf import vloop
 
+    if d.get("part") == "retry":
+        vloop.run(retry_case(ctx, d["secure"], d["end"], d["answer_retry"], d["idx"]))
+        return
     vloop.run(run_one(ctx, d["schedule"], d["api"], "replay"))
